@@ -243,6 +243,151 @@ func (p c03) Run(c *core.Ctx) {
 	if !c.Failed() {
 		p.defaultStoreVersusMap(c)
 	}
+	if !c.Failed() {
+		p.hostWritesDuringEvaluation(c)
+	}
+	if !c.Failed() {
+		p.restoresAcrossTypes(c)
+	}
+}
+
+// restoresAcrossTypes: snapshot B holds $x as a number; an older snapshot A (where $x does not exist) is
+// restored, $x then gets a value of another type, and B is restored: the default store holds $x as the
+// number again, and only as that.
+func (p c03) restoresAcrossTypes(c *core.Ctx) {
+	r := c.R
+	script := "title: Start\n---\na\n<<jump Two>>\n===\ntitle: Two\n---\n<<set $x to 1>>\n<<set $keep to \"k\">>\n<<jump Three>>\n===\ntitle: Three\n---\nb {$x}\n<<set $x += 1>>\nc {$x}\n===\n"
+	def := variable.NewInMemoryStorer()
+	rr, err, pan := mon.Create(def, "", []string{script})
+	if err != nil || pan != "" {
+		c.Violate("the restore-across-types script failed to load", map[string]any{"readers": []string{script}, "error": fmt.Sprint(err), "panic": pan})
+		return
+	}
+	var trace []string
+	step := func() mon.Obs { o := rr.Next(0); trace = append(trace, o.String()); return o }
+	step()
+	snapA := rr.DR.Snapshot()
+	step()
+	snapB := rr.DR.Snapshot()
+	fail := func(what string) {
+		c.Violate("after restores between snapshots that hold a variable under different types, "+what, map[string]any{"readers": []string{script}, "trace": trace})
+	}
+	for round := 0; round < 2; round++ {
+		if err := rr.RestoreAt(snapA); err != nil {
+			fail("RestoreAt(A) failed: " + err.Error())
+			return
+		}
+		trace = append(trace, "RestoreAt(A)")
+		if r.Bool() {
+			def.SetStringValue("x", "one")
+			trace = append(trace, "host: $x = \"one\"")
+		} else {
+			def.SetBooleanValue("x", true)
+			trace = append(trace, "host: $x = true")
+		}
+		if err := rr.RestoreAt(snapB); err != nil {
+			fail("RestoreAt(B) failed: " + err.Error())
+			return
+		}
+		trace = append(trace, "RestoreAt(B)")
+		nums, bools, strs := def.VerifTypedNames()
+		seen := map[string]int{}
+		for _, l := range [][]string{nums, bools, strs} {
+			for _, n := range l {
+				seen[n]++
+			}
+		}
+		v, ok := def.GetValue("x")
+		all := def.GetValues()
+		switch {
+		case seen["x"] != 1:
+			fail(fmt.Sprintf("the default store holds $x under %d types", seen["x"]))
+			return
+		case !ok || v.Number == nil || *v.Number != 1:
+			fail("GetValue($x) is not the snapshot's number 1")
+			return
+		case all["x"].Number == nil || *all["x"].Number != 1:
+			fail("GetValues() does not report $x as the snapshot's number 1")
+			return
+		}
+		o := step()
+		if o.Kind != mon.KLine || o.Text != "b 1" {
+			fail("the restored run does not show \"b 1\": " + o.String())
+			return
+		}
+		o = step()
+		if o.Kind != mon.KLine || o.Text != "c 2" {
+			fail("the restored run does not show \"c 2\" after $x += 1: " + o.String())
+			return
+		}
+	}
+	c.Feature("restores-between-snapshots-of-different-types")
+}
+
+// hostWritesDuringEvaluation: the right-hand side of an assignment calls a host function that itself writes the
+// assigned variable - with another type - into the store. The store is the source of truth: when the value
+// is stored the variable HAS a type, so the assignment is refused and the host's value stays.
+func (p c03) hostWritesDuringEvaluation(c *core.Ctx) {
+	r := c.R
+	useDef := r.Bool()
+	var st variable.Storer
+	rec := mon.NewRecStorer()
+	def := variable.NewInMemoryStorer()
+	if useDef {
+		st = def
+	} else {
+		st = rec
+	}
+	kind := r.Intn(3) // what the host writes: 0 string, 1 boolean, 2 number
+	ret := []string{"5", "5", "\"five\""}[kind]
+	stmt := r.Pick("<<set $hv = hostset()>>", "<<set $hv to hostset()>>", "<<declare $hv = hostset()>>")
+	script := "title: Start\n---\nbefore\n" + stmt + "\nafter\n===\n"
+	rr, err, pan := mon.Create(st, "", []string{script})
+	if err != nil || pan != "" {
+		c.Violate("a script whose assignment calls a host function failed to load", map[string]any{"readers": []string{script}, "error": fmt.Sprint(err), "panic": pan})
+		return
+	}
+	rr.DR.AddFunction("hostset", func([]*variable.Value) (*variable.Value, error) {
+		switch kind {
+		case 0:
+			st.SetStringValue("hv", "written by the host")
+		case 1:
+			st.SetBooleanValue("hv", true)
+		default:
+			st.SetNumberValue("hv", 77)
+		}
+		if ret == "5" {
+			return variable.NewNumber(5), nil
+		}
+		return variable.NewString("five"), nil
+	})
+	o1 := rr.Next(0)
+	o2 := rr.Next(0)
+	held, ok := st.GetValue("hv")
+	hostKept := ok && (kind == 0 && held.String != nil && *held.String == "written by the host" || kind == 1 && held.Boolean != nil && *held.Boolean || kind == 2 && held.Number != nil && *held.Number == 77)
+	twoTypes := ""
+	if useDef {
+		nums, bools, strs := def.VerifTypedNames()
+		n := 0
+		for _, l := range [][]string{nums, bools, strs} {
+			for _, x := range l {
+				if x == "hv" {
+					n++
+				}
+			}
+		}
+		if n > 1 {
+			twoTypes = "the default store holds $hv under two types"
+		}
+	} else if len(rec.TypeChanges) > 0 {
+		twoTypes = "the variable was written under a second type: " + strings.Join(rec.TypeChanges, "; ")
+	}
+	c.Feature("host-writes-the-assigned-variable-during-evaluation")
+	if o1.Kind != mon.KLine || o2.Kind != mon.KErr || !hostKept || twoTypes != "" {
+		c.Violate("an assignment whose right-hand side made the host write the variable under another type was not refused (the store is the source of truth)", map[string]any{
+			"readers": []string{script}, "host_writes": []string{"a string", "a boolean", "a number"}[kind], "function_returns": ret,
+			"first": o1.String(), "second": o2.String(), "host_value_kept": hostKept, "two_types": twoTypes})
+	}
 }
 
 // defaultStoreVersusMap drives the default store directly, as a host does between two steps, with a random
